@@ -1,6 +1,7 @@
 /- C10 — configured limits bound what the parser keeps. -/
 import HtpModel.Lemmas.Conn
 import HtpModel.Lemmas.BufInv
+import HtpModel.Lemmas.OutInv
 
 namespace Htp.C10
 open Htp.Conn Htp.Gen
@@ -108,5 +109,25 @@ theorem C10_req_call_buffer_bounded (cfg : Cfg) (d : Bytes) (c : Conn) (hs : (d.
 example :
     let c : Conn := { inState := .line, inn := { status := STREAM_DATA, tx := some 0 }, txs := [some { uid := 0 }] }
     inBufLen c ≤ (({} : Cfg).fieldLimitHard) ∧ inBufLen (reqData {} (some (b!"GET /")) 5 c).1 = 5 := by decide
+
+/-- **C10 (response direction, every state function)**: the same for the ten response state functions. The cursor part of the invariant is
+    weaker there (`WFO`: 0 <= consume, 0 <= read <= len <= |chunk|): after an un-read the consume offset may stand ahead of the read
+    offset, and buffering then fails its limit test as a whole (C10_buffer_bound). -/
+theorem C10_res_state_buffer_bounded (cfg : Cfg) (c : Conn) (w : WFBO cfg.fieldLimitHard c.out)
+    (ho1 : c.outState = ResState.bodyIdentityClKnown → 0 ≤ c.out.bodyDataLeft)
+    (ho2 : c.outState = ResState.bodyChunkedData → 0 ≤ c.out.chunkedLength) :
+    WFBO cfg.fieldLimitHard (resStateFn cfg c).1.out := wfboOut_resStateFn cfg c w ho1 ho2
+
+/-- **C10 (response direction, whole data call)**: htp_connp_res_data on ANY state with at most `field_limit_hard` bytes set aside, any chunk
+    of data and any callback policy returns with at most `field_limit_hard` bytes set aside. -/
+theorem C10_res_call_buffer_bounded (cfg : Cfg) (d : Bytes) (c : Conn) (hs : (d.length : Int) < 18446744073709551616)
+    (hb : outBufLen c ≤ cfg.fieldLimitHard)
+    (ho : ∀ c', CallReachO cfg (resStoreChunk (some d) d.length c) c' → OwedOKO c') :
+    outBufLen (resData cfg (some d) d.length c).1 ≤ cfg.fieldLimitHard := resData_buffer_bounded cfg d c hs hb ho
+
+/-- non-vacuity: an unterminated status line is set aside (10 bytes) -/
+example :
+    let c : Conn := { outState := .line, out := { status := STREAM_DATA, tx := some 0 }, txs := [some { uid := 0 }] }
+    outBufLen c ≤ (({} : Cfg).fieldLimitHard) ∧ outBufLen (resData {} (some (b!"HTTP/1.1 2")) 10 c).1 = 10 := by decide
 
 end Htp.C10
